@@ -406,6 +406,10 @@ def families(tier: str) -> List[Dict[str, Any]]:
     entries = [("ZD2", "m", "X [1]"), ("Z15", "m", "X [1]"), ("E03", "m", "X [2]"), ("E01", "m", "X [1]")]
     for inp in (None, "E01", "E03"):
         cases.append({"family": "pool", "entry": "pool", "node": valuepool("P", entries, inp), "env": {"rc": {"1": F, "2": U}, "fc_text": {}, "soll": True}, "parent": "IS_REQUIRED"})
+    # equal expressions on non-adjacent entries, all fulfilled: the offered values keep the order of the pool
+    entries = [("Z01", "m", "X [1]"), ("Z02", "m", "X"), ("Z03", "m", "X [1]"), ("Z04", "m", "X [3]"), ("Z05", "m", "X")]
+    for inp in (None, "Z03", "Z09"):
+        cases.append({"family": "pool", "entry": "pool", "node": valuepool("P", entries, inp), "env": {"rc": {"1": F, "3": F}, "fc_text": {}, "soll": True}, "parent": "IS_REQUIRED"})
     # qualifiers and inputs are compared as they are: no trimming, no case folding - directly and through the dispatcher
     entries = [("GABi-RLMmT", "m", "X [1]"), ("E01", "m", "X [1]"), ("E02", "m", "X [2]"), ("5.2e", "m", "X [1]")]
     for inp in ("GABi-RLMmT", "gabi-rlmmt", "GABI-RLMMT", "e01", " E01", "E01 ", "E02", "e02", "5.2e", "5.2E", None, ""):
